@@ -10,7 +10,7 @@ from ..ini import Ini
 from ..model import AnalysisError
 from ..roles import roles_of
 from ..terms import call_name, canon, conjuncts, const_num, guard_canon, guard_of, linear, norm_stmt, state_key
-from .common import attr_stores, iter_stores, key_stores, reaching_assignments, self_attr_of
+from .common import attr_stores, deref_canon as _deref, iter_stores, key_stores, reaching_assignments, self_attr_of
 
 EXPLANATION = (
     "R1 complete enumeration of the stores to the poll mesh exponent in the package, each in normal form with its guard: initialisation from "
@@ -54,39 +54,6 @@ def _loop_callers(prog, R):
         for call, targets in prog.calls_in(f):
             seeds += [t for t in targets if hasattr(t, "node") and getattr(t, "cls", None) is R.bads]
     return out
-
-
-def _deref(prog, fn, expr):
-    """canonical text of ``expr`` with local names replaced by their unique defining expression."""
-    import copy
-
-    class D(ast.NodeTransformer):
-        def __init__(self):
-            self.depth = 0
-
-        def visit_Subscript(self, node):
-            if not isinstance(node.value, ast.Name):
-                node.value = self.visit(node.value)
-            node.slice = self.visit(node.slice)
-            return node
-
-        def visit_Attribute(self, node):
-            if not isinstance(node.value, ast.Name):
-                node.value = self.visit(node.value)
-            return node
-
-        def visit_Name(self, node):
-            if isinstance(node.ctx, ast.Load) and self.depth < 4:
-                defs = reaching_assignments(prog, fn, node.id, expr)
-                if len(defs) == 1 and defs[0] is not None and not isinstance(defs[0], ast.Name):
-                    self.depth += 1
-                    try:
-                        return self.visit(copy.deepcopy(defs[0]))
-                    finally:
-                        self.depth -= 1
-            return node
-
-    return canon(D().visit(copy.deepcopy(expr)))
 
 
 def check(ctx):
